@@ -68,6 +68,7 @@ struct Obs {
     fixpoint_rules_checked: u64,
     exec_err: bool,
     kb_edits: u64,
+    grouped: bool,
     undefined: Vec<&'static str>,
 }
 
@@ -239,7 +240,13 @@ fn judge_call(
                 obs.bound_reached |= *last > 0;
                 obs.quiesced |= *last == 0;
                 // fixpoint: the run stopped after a pass that fired nothing
-                if *last == 0 {
+                let grouped = case.rules.iter().any(|r| r.attrs.agenda_group.is_some() || r.actions.iter().any(|a| matches!(a, Action::ActivateAgendaGroup(_))));
+                if grouped {
+                    // which group holds the focus at the end is not modelled here (C02 does):
+                    // the fixpoint clause is not judged, the bound clauses above are
+                    obs.grouped = true;
+                }
+                if *last == 0 && !grouped {
                     let fin = match &run.final_store {
                         Ok(s) => s.clone(),
                         Err(_) => return None,
@@ -329,6 +336,9 @@ fn record(case: &Case, st: &mut Stats) {
     if obs.quiesced {
         st.count("runs_stopped_by_quiescence");
     }
+    if obs.grouped {
+        st.count("cases_with_agenda_groups_handing_the_focus_around(fixpoint clause not judged)");
+    }
     for u in &obs.undefined {
         st.count(&format!("skipped_undefined::{}", u));
     }
@@ -408,6 +418,21 @@ fn gen_rule(rng: &mut Rng, idx: usize) -> RuleAst {
         // raises a limit once a counter has reached a value
         let (c, l) = *rng.pick(&[("n", "m"), ("m", "n"), ("n", "Cnt.v")]);
         (leaf(c, Op::Ge, V::Int(*rng.pick(&[2i64, 3, 5]))), vec![set(l, Rhs::Lit(V::Int(*rng.pick(&[6i64, 9, 12]))))])
+    } else if k < 96 {
+        // remainder / quotient whose divisor is a FACT that is, or counts down to, 0 (and the pair
+        // i64::MIN % -1): in a test condition, or on the right of an assignment
+        let (a, b) = *rng.pick(&[("n", "m"), ("out", "m"), ("m", "n"), ("big", "neg")]);
+        let o = *rng.pick(&['%', '%', '/']);
+        let ar = Chain { first: Operand::Field(a.into()), rest: vec![(o, Operand::Field(b.into()))] };
+        match rng.below(3) {
+            0 => (Cond::Leaf(Leaf { lhs: Lhs::Arith(ar), op: *rng.pick(&[Op::Eq, Op::Ne, Op::Ge]), rhs: Rhs::Lit(V::Int(0)) }), vec![inc("out")]),
+            1 => (leaf("one", Op::Eq, V::Int(1)), vec![set("rem", Rhs::Arith(ar)), inc("out")]),
+            // the divisor counts down by one per firing
+            _ => (
+                leaf(b, Op::Ge, V::Int(0)),
+                vec![set("rem", Rhs::Arith(ar)), set(b, Rhs::Arith(Chain { first: Operand::Field(b.into()), rest: vec![('-', Operand::Int(1))] }))],
+            ),
+        }
     } else if k < 97 {
         // a rule whose action fails (unregistered custom action): the call returns Err
         let f = *rng.pick(&flags);
@@ -453,12 +478,35 @@ fn gen_store(rng: &mut Rng) -> Store {
     if rng.bool() {
         s.0.insert("d0".into(), V::Bool(false));
     }
+    if rng.chance(1, 8) {
+        s.0.insert("big".into(), V::Int(i64::MIN));
+        s.0.insert("neg".into(), V::Int(*rng.pick(&[-1i64, 0, 1])));
+    }
     s
 }
 
 fn gen_case(rng: &mut Rng) -> Case {
     let n = 1 + rng.below(5);
     let rules: Vec<RuleAst> = (0..n).map(|i| gen_rule(rng, i)).collect();
+    let mut rules = rules;
+    if rng.chance(1, 6) {
+        // agenda groups whose rules hand the focus to one another (ActivateAgendaGroup takes
+        // effect at once): a pass is still a pass and the call still makes at most max_cycles
+        let groups = ["ga", "gb", "gc"];
+        for r in rules.iter_mut() {
+            let g = rng.below(4);
+            if g < 3 {
+                r.attrs.agenda_group = Some(groups[g].to_string());
+            }
+            if rng.chance(2, 3) {
+                let to = groups[(g + 1 + rng.below(2)) % 3];
+                r.actions.push(Action::ActivateAgendaGroup(to.to_string()));
+            }
+            if rng.chance(1, 2) {
+                r.attrs.no_loop = false;
+            }
+        }
+    }
     let disabled = rules.iter().filter(|_| rng.chance(1, 8)).map(|r| r.name.clone()).collect();
     let max_cycles = match rng.below(10) {
         0 => 0,
